@@ -8,7 +8,7 @@ SRC="$(dirname "$(readlink -f "$0")")/.."
 TIER="${1:-quick}"; PAT="${2:-*}"
 WT=/tmp/seedreg-$$
 COPY=/tmp/seedreg-verif-$$
-rsync -a --exclude replay "$SRC/" "$COPY/" || exit 2
+rsync -a --exclude replay --exclude .git "$SRC/" "$COPY/"; [ -x "$COPY/check" ] || exit 2
 cd "$COPY"
 git -C /repo worktree add --detach "$WT" HEAD >/dev/null 2>&1 || exit 2
 for d in seeded/$PAT/; do
